@@ -82,6 +82,8 @@ def make_script(rng, pool, n_calls, edit_lists=True):
             script.append(("tokenize", t))
         elif c < 0.96:
             script.append(("clear_cache",))
+        elif c < 0.985:
+            script.append(("copy", rng.choice(["deepcopy", "pickle", "copy"])))
         if edit_lists and rng.random() < 0.5:
             script.append(("edit", rng.randrange(1000), rng.choice(EDITS), rng.randrange(50)))
     return script
@@ -109,6 +111,24 @@ def run_script(parser, script):
             parser.clear_cache()
             if hist is not None:
                 hist.append(("clear_cache", "", "ok"))
+        elif op[0] == "copy":
+            # the parser goes on as a copy of itself (a snapshot of a search state, a worker process): caches,
+            # settings and history travel with it
+            import copy as _copy
+            import pickle as _pickle
+
+            try:
+                new = _copy.deepcopy(parser) if op[1] == "deepcopy" else _pickle.loads(_pickle.dumps(parser)) if op[1] == "pickle" else _copy.copy(parser)
+            except Exception:
+                new = None
+            if new is not None:
+                parser = new
+                stats["copies"] = stats.get("copies", 0) + 1
+                hist = getattr(parser, "_vmon_history", None)
+                if hist is not None:
+                    if op[1] == "copy":
+                        parser._vmon_history = hist = list(hist)
+                    hist.append(("copy", "", op[1]))
         elif op[0] == "edit" and handed:
             stats["edits"] += 1
             apply_edit(handed[op[1] % len(handed)], op[2], op[3])
@@ -125,6 +145,8 @@ def replay_history(parser, hist):
             script.append((kind, text))
         elif kind == "clear_cache":
             script.append(("clear_cache",))
+        elif kind == "copy":
+            script.append(("copy", out))
         elif kind == "edit":
             k, op, arg = out.split(":")
             script.append(("edit", int(k), op, int(arg)))
